@@ -932,13 +932,18 @@ package desync
 //@   checks alloc
 //@   requires $consumed >= 0
 //@   requires @C18 confined(a.dir)
-//@   modifies all, $consumed, $rp, $wn, $tlast, $tlen
+//@   modifies all, $consumed, $rp, $wn, $tlast, $tlen, $wasRooted
 //@   ensures $consumed >= old($consumed)
 //@   ensures @C18 confined(a.dir) && (r1 == nil ==> nodeConfined(r0))
 //@   loop 1: invariant $consumed >= old($consumed) && confined(a.dir) && (name == "" || safeName(name))
 //# C05: an extended attribute is recorded under the part of the element before its first NUL byte, with
 //# everything after that byte as its value (values may contain NUL bytes themselves)
 //@   assert@mapstore:xattrs @C05 $k == d.NameAndValue[0:indexRune(d.NameAndValue, 0)] && $v == d.NameAndValue[indexRune(d.NameAndValue, 0)+1:]
+//# C18: only the first entry of an archive (its root) is without a filename element; every later node is named by
+//# the current directory joined with a validated, non-empty single component (never the directory itself)
+//@   ghost@entry $wasRooted = a.rooted
+//@   assert@before:Join @C18 $wasRooted ==> name != ""
+//@   ensures @C18 r1 == nil && r0 != nil ==> a.rooted
 
 //# the server allocates for chunk data coming from its own store, not from the request stream
 //@ func (s *ProtocolServer) Serve
@@ -1194,6 +1199,10 @@ package desync
 //@   safety none
 //@   oncall Stat: requires $arg0 == chunkPath(s.Base, id, s.Opt.Uncompressed)
 //@   oncall Remove: requires $arg0 == chunkPath(s.Base, id, s.Opt.Uncompressed)
+//# removing a chunk removes that one file and nothing else: no directory, no other name
+//@   oncall RemoveAll: requires false
+//@   oncall Rename: requires false
+//@   oncall Truncate: requires false
 
 //@ func (s LocalStore) StoreChunk
 //@   prop C20 C08
@@ -1691,7 +1700,7 @@ package desync
 //# C05: an entry is packed inside a directory's element exactly when the directory is its parent, under the
 //# last component of its name
 //@   oncall tar#2: requires @C05,C13 pdir($arg3.Path) == dir
-//@   modifies all, $wn, $w, $wid, $sawDone, $gbfixed, $gbprev
+//@   modifies all, $wn, $w, $wid, $sawDone, $gbfixed, $gbprev, $supp
 //@   ghost@recv:ctx.Done() $sawDone = true
 //# every element handed to the encoder carries its own type and a size field equal to the bytes its encoding takes
 //# (payload: the size field is 16 + the file size reported by the filesystem reader; that this equals the number of
@@ -1720,6 +1729,15 @@ package desync
 //@   ghost@entry $gbfixed = false
 //@   ghost@loop4.exit $gbfixed = true
 //@   assert@before:Encode @C13 is($a0, FormatGoodbye) ==> $gbfixed
+//# a filename element is written only for a child that is then encoded (directory, regular file, symlink or
+//# device): nodes of other kinds are skipped before anything is written for them
+//@   ghost@entry $supp = false
+//@   ghost@loop3.head $supp = false
+//@   ghost@after:IsDevice $supp = $supp || $r0
+//@   ghost@after:IsDir $supp = $supp || $r0
+//@   ghost@after:IsRegular $supp = $supp || $r0
+//@   ghost@after:IsSymlink $supp = $supp || $r0
+//@   assert@before:Encode @C13 is($a0, FormatFilename) ==> $supp
 
 // ---------------------------------------------------------------------------------------------
 // C03: the remaining backends hand every body they fetched to the verifying constructor with the
@@ -1728,6 +1746,8 @@ package desync
 //# the skip flag of the pooled connection that served the request (every connection carries the store's options)
 //@ ghost var $sftpSkip bool
 //@ ghost var $gbfixed bool
+//@ ghost var $supp bool
+//@ ghost var $wasRooted bool
 //@ ghost var $gbprev int
 
 //@ func (s S3Store) GetChunk
